@@ -128,7 +128,13 @@ class Env:
                      1: S.gauss_hemisphere(nt, nphi, phase=self.phase),
                      2: S.gauss_hemisphere(nt, nphi, phase=self.phase + 0.31),
                      3: pf.Coordinates([0.0, 0.6], [0.0, 0.0], [1.0, -0.8], weights=[1.0, 1.0])}
+        # outgoing sets: separate objects; for half of the environments other directions than the
+        # incoming ones (same count), so that a mix-up of the two lists is visible
         self.dirs_out = {k: v.copy() for k, v in self.dirs.items()}
+        if rng.random() < 0.5:
+            self.dirs_out[1] = S.gauss_hemisphere(nt, nphi, phase=self.phase + 0.17)
+            self.dirs_out[2] = S.gauss_hemisphere(nt, nphi, phase=self.phase + 0.52)
+            self.dirs_out[3] = pf.Coordinates([0.0, -0.6], [0.0, 0.0], [1.0, -0.8], weights=[1.0, 1.0])
         self.ndir = {0: 1, 1: nt * nphi, 2: nt * nphi, 3: 2}
         prim = [0] if self.single else [1, 2]
         odd = 1 if self.single else 0
